@@ -6,7 +6,7 @@ log=$1; shift
 snap=$(mktemp -d /tmp/verif-snap.XXXXXX)
 cd "$(dirname "$0")/.."
 root=$(pwd)
-git worktree add -q --detach "$snap" HEAD
+git worktree add -q --detach "$snap" ${SNAP_REV:-HEAD}
 cp -r .deps "$snap/.deps" 2>/dev/null
 ( cd "$snap" && /venv/bin/python tools/seed_matrix.py "$@" ) > "$log" 2>&1
 # only the meta files this run rewrote (changed relative to the snapshot's own commit)
